@@ -1280,6 +1280,14 @@ class NumbaBackend(NumpyBackend):
         class ListArrayPrinter(PythonCodePrinter):
             """Special sympy printer returning arrays as lists."""
 
+            def _print_Integer(self, expr):
+                # sympy's simplification can produce integers beyond the range of
+                # int64 (e.g., 48*log(7) becomes log(7**48)), which numpy's ufuncs and
+                # numba cannot handle; such literals are printed as floats
+                if abs(int(expr)) >= 2**63:
+                    return repr(float(expr))
+                return super()._print_Integer(expr)
+
             def _print_ImmutableDenseNDimArray(self, arr):
                 if arr.rank() > 1:
                     arrays = ", ".join(f"{self._print(expr)}" for expr in arr)
